@@ -163,10 +163,23 @@ def run_disp_impl(case):
 
             def finish(self):
                 log.append("proto %d finish" % i)
+        if case.get("via") == "simulator":
+            return P
         p = P()
         p.provider = Provider()
         return p
-    protos = [make_proto(i) for i in range(ninst)]
+    encs = None
+    if case.get("via") == "simulator":
+        # the protocol instances live inside a real simulation; callbacks are delivered the way the simulator
+        # delivers them: through each node's encapsulator
+        from gradysim.simulator.simulation import SimulationBuilder, SimulationConfiguration
+        b = SimulationBuilder(SimulationConfiguration(execution_logging=False))
+        ids = [b.add_node(make_proto(i), (float(i), 0.0, 0.0)) for i in range(ninst)]
+        sim = b.build()
+        encs = [sim.get_node(k).protocol_encapsulator for k in ids]
+        protos = [e.protocol for e in encs]
+    else:
+        protos = [make_proto(i) for i in range(ninst)]
     wrappers = {}
     counts = [0] * len(case["beh"])
     total = [0]
@@ -219,7 +232,7 @@ def run_disp_impl(case):
                 reop(op)
             elif op[0] == "disp":
                 i, k = op[1], op[2]
-                p = protos[i]
+                p = protos[i] if encs is None else encs[i]
                 if k == "init":
                     p.initialize()
                 elif k == "timer":
